@@ -248,6 +248,11 @@ class MatrixOperator(LinearOperator):
         return MatrixOperator(A=self.A.conj(), input_cols=self.input_cols)
 
     def adj(self, y):
+        if not isinstance(y, Operator) and y.shape != self.output_shape:
+            raise ValueError(
+                f"Shapes do not conform: input array with shape {y.shape} does not match "
+                f"MatrixOperator output_shape {self.output_shape}."
+            )
         return self.A.conj().T @ y
 
     def to_array(self):
